@@ -29,7 +29,7 @@ func init() {
 	engine.Register(&engine.Check{
 		ID:         "C09",
 		Technique:  "explicit-state search over socket-set histories (open orders, closes, interface toggles) on the real stack with exhaustive injection of the inbound 4-tuple alphabet after every operation, against a most-specific-match reference; stateless model checking (cooperative scheduler, all schedules) of registration/unregistration racing delivery",
-		Rule:       "sockets from {UDP bound *:P, A1:P, A2:P, A3:P(NIC2), A1:P connected to R:Q, *:P connected to R:Q; TCP listener *:P, A1:P; TCP connection A1:P<->R:Q}: all sets of size <=3 in all open orders, then each single close; toggles promiscuous / subnet; after each operation inject dst {A1,A2,A3,foreign,unassigned} x dport {P,P'} x src {R,R'} x sport {Q,Q'} x {UDP, TCP SYN, TCP ACK+data} on each NIC; distinct = distinct (history, packet)",
+		Rule:       "sockets from {UDP bound *:P, A1:P, A2:P, A3:P(NIC2), A1:P connected to R:Q, *:P connected to R:Q; TCP listener *:P, A1:P}: all sets of size <=3 in all open orders, then each single close; toggles promiscuous / subnet; after each operation inject dst {A1,A2,A3,foreign,unassigned} x dport {P,P'} x src {R,R'} x sport {Q,Q'} x {UDP, TCP SYN, TCP ACK+data} on each NIC; distinct = distinct (history, packet)",
 		Assumes:    []string{"sockets are registered with the global demultiplexer (NIC 0) except accepted TCP connections; sockets explicitly bound to a NIC are outside the alphabet"},
 		Jobs:       c09Jobs,
 		Run:        c09Run,
